@@ -20,3 +20,13 @@ Theorem C04_source_UserPassword : forall cx a sec ra, bytes_ok a -> forall n,
   Some (Some (ret_res (spec_user_password md5 a sec ra) VBytes VNil)).
 Proof. exact src_UserPassword_spec. Qed.
 Print Assumptions C04_source_UserPassword.
+
+(* non-vacuity: a 17-byte password (two blocks) through the translated encoder and back *)
+Example C04_src_example :
+  match src_run "NewUserPassword" 100 [VBytes (repeat 65%N 17); VBytes [115; 101; 99]%N; VBytes (repeat 1%N 16)] with
+  | Some (Some (VTup [VBytes c; VNil])) =>
+      length c = 32 /\
+      src_run "UserPassword" 100 [VBytes c; VBytes [115; 101; 99]%N; VBytes (repeat 1%N 16)] = Some (Some (VTup [VBytes (repeat 65%N 17); VNil]))
+  | _ => False
+  end.
+Proof. vm_compute. split; reflexivity. Qed.
